@@ -163,6 +163,11 @@ func (tw *TimingWheel) Stop() {
 	close(tw.stopChannel)
 }
 
+// distance returns the number of ticks until the slot at pos gets scanned, in [1, numSlots].
+func (tw *TimingWheel) distance(pos int) int {
+	return (pos-tw.tickedPos+tw.numSlots-1)%tw.numSlots + 1
+}
+
 func (tw *TimingWheel) drainAll(fn func(key, value any)) {
 	runner := threading.NewTaskRunner(drainWorkers)
 	for _, slot := range tw.slots {
@@ -210,13 +215,16 @@ func (tw *TimingWheel) moveTask(task baseEntry) {
 	}
 
 	pos, circle := tw.getPositionAndCircle(task.delay)
-	if pos >= timer.pos {
+	// compare the distances from the current position instead of the slot indexes,
+	// because the slots might have wrapped around tw.tickedPos.
+	diff := tw.distance(pos) - tw.distance(timer.pos)
+	if diff >= 0 {
 		timer.item.circle = circle
-		timer.item.diff = pos - timer.pos
+		timer.item.diff = diff
 	} else if circle > 0 {
 		circle--
 		timer.item.circle = circle
-		timer.item.diff = tw.numSlots + pos - timer.pos
+		timer.item.diff = tw.numSlots + diff
 	} else {
 		timer.item.removed = true
 		newItem := &timingEntry{
